@@ -97,4 +97,48 @@ mod verif_proofs {
         vk_cover!(v && d == b'2', "vertical caret 2");
         std::mem::forget(r);
     }
+
+    // ---------------------------------------------------------------- C04: phantom points (what gvar/HVAR/VVAR advances are read from)
+    fn r(v: f64) -> f64 { (v + 0.5).floor() }
+
+    /// horizontal phantom points: origin and the rounded advance of THIS instance; vertical ones zero unless built
+    #[cfg_attr(kani, kani::proof)]
+    #[cfg_attr(kani, kani::unwind(6))]
+    pub(super) fn c04_phantom_points_horizontal() {
+        let w = vk::finite_f64(1.0e9);
+        vk::assume(w >= 0.0 && w < 65535.5); // beyond u16: the recorded C19 finding
+        let inst = GlyphInstance { width: w, height: Some(vk::finite_f64(1.0e6)), vertical_origin: Some(vk::finite_f64(1.0e6)), ..Default::default() };
+        let gm = GlobalMetricsInstance::default();
+        let mut pts = vec![Point::new(3.0, 4.0)];
+        inst.add_phantom_points(&gm, false, &mut pts);
+        assert!(pts.len() == 5 && pts[0] == Point::new(3.0, 4.0), "VK_ASSERT four_phantom_points_appended");
+        assert!(pts[1] == Point::new(0.0, 0.0) && pts[2] == Point::new(r(w), 0.0), "VK_ASSERT horizontal_phantoms_are_origin_and_rounded_advance");
+        assert!(pts[3] == Point::new(0.0, 0.0) && pts[4] == Point::new(0.0, 0.0), "VK_ASSERT vertical_phantoms_zero_when_not_built");
+        vk_cover!(w > 40000.0 && w != r(w), "fractional advance above i16 range");
+        std::mem::forget(pts); std::mem::forget(inst); std::mem::forget(gm);
+    }
+
+    /// vertical phantom points: top = rounded vertical origin (own, else typo ascender), bottom = top - rounded height
+    /// (own, else typo ascender - descender)
+    #[cfg_attr(kani, kani::proof)]
+    #[cfg_attr(kani, kani::unwind(6))]
+    pub(super) fn c04_phantom_points_vertical() {
+        let (asc, desc) = (vk::finite_f64(1.0e6), vk::finite_f64(1.0e6));
+        let (has_h, has_vo) = (vk::any_bool(), vk::any_bool());
+        let (h, vo) = (vk::finite_f64(1.0e6), vk::finite_f64(1.0e6));
+        let eff_h = if has_h { h } else { asc - desc };
+        let eff_vo = if has_vo { vo } else { asc };
+        vk::assume(eff_h >= 0.0 && eff_h < 65535.5 && eff_vo >= -32768.0 && eff_vo < 32767.5);
+        let inst = GlyphInstance { width: 500.0, height: if has_h { Some(h) } else { None }, vertical_origin: if has_vo { Some(vo) } else { None }, ..Default::default() };
+        let gm = GlobalMetricsInstance { os2_typo_ascender: asc.into(), os2_typo_descender: desc.into(), ..Default::default() };
+        assert!(inst.height(&gm) as f64 == r(eff_h), "VK_ASSERT advance_height_is_own_or_typo_extent_rounded");
+        assert!(inst.vertical_origin(&gm) as f64 == r(eff_vo), "VK_ASSERT vertical_origin_is_own_or_typo_ascender_rounded");
+        let mut pts = Vec::new();
+        inst.add_phantom_points(&gm, true, &mut pts);
+        assert!(pts.len() == 4 && pts[1] == Point::new(500.0, 0.0), "VK_ASSERT horizontal_phantoms_are_origin_and_rounded_advance");
+        assert!(pts[2] == Point::new(0.0, r(eff_vo)) && pts[3] == Point::new(0.0, r(eff_vo) - r(eff_h)), "VK_ASSERT vertical_phantoms_are_origin_and_origin_minus_height");
+        vk_cover!(!has_h && !has_vo && desc < 0.0, "both fall back to the typo metrics");
+        vk_cover!(has_h && has_vo, "both explicit");
+        std::mem::forget(pts); std::mem::forget(inst); std::mem::forget(gm);
+    }
 }
